@@ -211,14 +211,27 @@ DoEditPolicy(p) ==
   /\ obs' = [a |-> "EditPolicy", res |-> "Ok"]
   /\ UNCHANGED <<policy, st, cursors, members, sessions, enforcer, clientAuth>>
 
-\* the policy file disappears (removed before it is rewritten, unreadable volume ...)
-DoBreakFile ==
-  /\ fileOK' = FALSE
+\* the policy file cannot be loaded any more: it disappears (removed before it is rewritten, unreadable volume;
+\* p = policyFile, what it last held), or the write of a new revision p stops half-way (a valid first part, then a
+\* line that cannot be parsed, then the rest)
+DoBreakFile(p) ==
+  /\ fileOK' = FALSE /\ policyFile' = p
   /\ obs' = [a |-> "BreakFile", res |-> "Ok"]
-  /\ UNCHANGED <<policy, policyFile, st, cursors, members, sessions, enforcer, clientAuth>>
+  /\ UNCHANGED <<policy, st, cursors, members, sessions, enforcer, clientAuth>>
 
-\* SIGHUP: the enforcer reloads the file; a reload that fails keeps what was loaded, and the NEXT
-\* reload is served like any other
+\* the client ends a streaming call it made (cancels the gRPC stream): its PublishAsync session is gone, the
+\* subscription the call set up (`held`: it was confirmed and is still served) ends; nothing else moves
+DoCancel(call, held) ==
+  /\ call.m \in StreamingMethods
+  /\ sessions' = IF call.m = "PublishAsync" THEN sessions \ {call.c} ELSE sessions
+  /\ st' = IF call.m = "Subscribe" /\ held
+            THEN [st EXCEPT ![call.s] = IF call.grp THEN [@ EXCEPT !.gsub = NoSub] ELSE [@ EXCEPT !.plain = @ - 1]]
+            ELSE st
+  /\ obs' = [a |-> "Cancel", res |-> "Ok"]
+  /\ UNCHANGED <<policy, policyFile, fileOK, cursors, members, enforcer, clientAuth>>
+
+\* SIGHUP: the enforcer reloads the file; a reload that fails - at the first line or half-way through the
+\* file - keeps what was loaded (all or nothing), and the NEXT reload is served like any other
 DoReload ==
   /\ enforcer
   /\ policy' = IF fileOK THEN policyFile ELSE policy
